@@ -337,6 +337,14 @@ def cmd_check(prop, tier):
     with ThreadPoolExecutor(max_workers=8) as ex:     # each replay is its own fresh interpreter
         replayed = list(ex.map(lambda t: fresh_replay(t[1]), todo))
     for (entry, rp), (rc, outp) in zip(todo, replayed):
+        if rc == 3:
+            # tape-based reproducer of a run()-style module whose generators changed since it was stored: it no longer
+            # denotes the recorded scenario. Reported, never an error of the check and never a pass of the scenario.
+            lines.append(f"NOTE stored reproducer {entry['id']} is stale (generators changed since it was recorded); not replayed")
+            if entry["status"] == "open":
+                lines.append(f"KNOWN-FINDING: property={prop} {entry['id']}: {entry['what']} (stored reproducer stale)")
+            kf_report.append({"id": entry["id"], "stale": True})
+            continue
         if entry["status"] == "open":
             if rc == 1:
                 lines.append(f"KNOWN-FINDING: property={prop} {entry['id']}: {entry['what']}")
